@@ -3,6 +3,7 @@ package lossy
 import (
 	"bytes"
 	"image"
+	"image/color"
 	"sync"
 
 	"github.com/deepteams/webp/internal/verifapi"
@@ -68,12 +69,16 @@ var vC11Scratch = []string{
 	"tmpAnSrc", "tmpAnPred", "tmpAnSrcU", "tmpAnSrcV", "tmpAnPredU", "tmpAnPredV",
 	// iterator and its context rows (set up by InitIterator at the start of every pass), NZ context rows
 	"mbIterator", "itTopY", "itTopU", "itTopV", "itTopModes", "itTopNZ", "topNz", "topNzDC", "statTopNz", "statTopNzDC",
-	// analysis and colour-conversion work areas
-	"analysisAlphas", "segMapTmp", "serialRowR", "serialRowG", "serialRowB", "serialRowA",
-	"serialPlanarR", "serialPlanarG", "serialPlanarB", "serialPlanarA", "serialTmpRGB",
+	// analysis work areas
+	"analysisAlphas", "segMapTmp",
 	// token pages and per-macroblock page marks: their residue is the subject of VerifH_C06_Partitions
 	"tokens",
 }
+
+// vC11Serial: work areas of the serial colour-conversion path; they are compared too when the picture
+// takes that path (mode 4), skipped when it does not (they are then neither written nor read).
+var vC11Serial = []string{"serialRowR", "serialRowG", "serialRowB", "serialRowA",
+	"serialPlanarR", "serialPlanarG", "serialPlanarB", "serialPlanarA", "serialTmpRGB"}
 
 func vC11Picture(w, h, seed int) *image.NRGBA {
 	img := image.NewNRGBA(image.Rect(0, 0, w, h))
@@ -93,7 +98,17 @@ func vC11Picture(w, h, seed int) *image.NRGBA {
 // different output bytes.)  mode: 0 default, 1 TargetSize, 2 TargetPSNR, 3 method 2 (stat loop path).
 func VerifH_C11_LossyEncoderReuse(mode int) {
 	encoderPool = sync.Pool{}
-	img := vC11Picture(20, 18, 1)
+	var img image.Image = vC11Picture(20, 18, 1)
+	skip := append(append([]string{}, vC11Scratch...), vC11Serial...)
+	if mode >= 4 {
+		// paletted source: takes the serial colour-conversion path, whose work areas are then compared too
+		pal := image.NewPaletted(image.Rect(0, 0, 20, 18), color.Palette{color.NRGBA{10, 200, 30, 255}, color.NRGBA{250, 20, 90, 255}, color.NRGBA{0, 0, 255, 255}})
+		for i := range pal.Pix {
+			pal.Pix[i] = uint8((i*7 + i/20) % 3)
+		}
+		img = pal
+		skip = vC11Scratch
+	}
 	cfg := DefaultConfig(60)
 	switch mode {
 	case 1:
@@ -108,14 +123,27 @@ func VerifH_C11_LossyEncoderReuse(mode int) {
 	old := DefaultConfig(35)
 	old.TargetSize = 700
 	old.Method = 6
-	dirty := NewEncoder(vC11Picture(30, 31, 2), old)
+	var prevImg image.Image = vC11Picture(30, 31, 2)
+	if mode == 5 {
+		// mode 5: instead of an arbitrary residue, the residue of ONE concrete earlier call that used the
+		// serial conversion path on a translucent picture (decidable even when the residue is read)
+		pal := image.NewPaletted(image.Rect(0, 0, 30, 31), color.Palette{color.NRGBA{10, 200, 30, 40}, color.NRGBA{250, 20, 90, 130}, color.NRGBA{0, 0, 255, 255}, color.NRGBA{9, 9, 9, 0}})
+		for i := range pal.Pix {
+			pal.Pix[i] = uint8((i*5 + i/30) % 4)
+		}
+		prevImg = pal
+		old.HasAlpha = 1
+	}
+	dirty := NewEncoder(prevImg, old)
 	verifapi.Assert(dirty != fresh && dirty.mbW == fresh.mbW && dirty.mbH == fresh.mbH, "second encoder is a distinct object of the same macroblock size")
 	dirty.rateCtrl = &passStats{}
 	dirty.parallelRS = newRowSync(dirty.mbH)
 	dirty.savedY, dirty.savedU, dirty.savedV = make([]byte, 8), make([]byte, 4), make([]byte, 4)
 	mbW, mbH, totalMB, ys, uvs := dirty.mbW, dirty.mbH, dirty.tokens.totalMB, dirty.yStride, dirty.uvStride
-	verifapi.Havoc(dirty)
-	verifapi.Havoc(dirty.rateCtrl)
+	if mode != 5 {
+		verifapi.Havoc(dirty)
+		verifapi.Havoc(dirty.rateCtrl)
+	}
 	// what every real history leaves unchanged: the macroblock dimensions the pool match is keyed on
 	// and the sizes derived from them at allocation time
 	dirty.mbW, dirty.mbH, dirty.tokens.totalMB, dirty.yStride, dirty.uvStride = mbW, mbH, totalMB, ys, uvs
@@ -124,7 +152,7 @@ func VerifH_C11_LossyEncoderReuse(mode int) {
 	reused := NewEncoder(img, cfg)
 	verifapi.Assert(reused == dirty, "the pooled encoder was reused")
 	verifapi.Cover(true, "reuse compared")
-	verifapi.Candidate(!verifapi.Symbolic() || verifapi.SameExcept(reused, fresh, vC11Scratch...), "a reused encoder starts in the same state as a fresh one")
+	verifapi.Candidate(!verifapi.Symbolic() || verifapi.SameExcept(reused, fresh, skip...), "a reused encoder starts in the same state as a fresh one")
 	if !verifapi.Symbolic() {
 		b1, e1 := fresh.EncodeFrame()
 		b2, e2 := reused.EncodeFrame()
